@@ -13,7 +13,7 @@
    reactor-style gossip, timeouts when idle) must bring every honest node past the next height
    (partial, DESIGN.md C12). *)
 From Coq Require Import List NArith ZArith Lia Bool.
-From AnnVerif Require Import Base.Res Base.Bytes Model.VoteSet Model.ValSet Model.Node Proofs.NodeProofs Proofs.PowerSum Proofs.Unlock Proofs.NoStaleLock.
+From AnnVerif Require Import Base.Res Base.Bytes Model.VoteSet Model.ValSet Model.Node Proofs.NodeProofs Proofs.PowerSum Proofs.Unlock Proofs.NoStaleLock Proofs.Decided.
 Import ListNotations.
 Open Scope Z_scope.
 
@@ -102,15 +102,18 @@ Proof. vm_compute. reflexivity. Qed.
 
 (* (4) the same as an invariant of every state a node reaches from the start of a height (any
    validator set with bounded powers, any inputs, configuration without skip-commit), while it is
-   in that height: if it is locked on a block since round lr, every +2/3 prevote majority it holds
-   for a round in (lr, its round] is for that block - no lock is kept against a later polka the
-   node knows of - and no vote set of a round ahead of the node holds +2/3 of any prevotes (it
-   would have moved the node there).  The engines' monitor "lock-kept-against-later-polka" checks
-   the first statement on the real ConsensusState after every input. *)
+   in that height and has not decided (before every input it was below the commit step): if it is
+   locked on a block since round lr, every +2/3 prevote majority it holds for a round in
+   (lr, its round] is for that block - no lock is kept against a later polka the node knows of -
+   and no vote set of a round ahead of the node holds +2/3 of any prevotes (it would have moved the
+   node there).  A node in the commit step has +2/3 precommits for a block and only waits for it;
+   since repair F-12a it does not follow later rounds any more.  The engines' monitor
+   "lock-kept-against-later-polka" checks the first statement on the real ConsensusState after
+   every input. *)
 Theorem c12_no_stale_lock :
   forall (VS : list validator), bounded VS -> forall (h0 : Z) c vs lc me s ins n0 n,
   c_skip_commit c = false -> vals_of vs = VS ->
-  init_node h0 vs lc me s = Ok n0 -> run c ins n0 = Ok n -> height n = h0 ->
+  init_node h0 vs lc me s = Ok n0 -> run c ins n0 = Ok n -> undecided_run c ins n0 -> height n = h0 ->
   (forall lb r b, lblock n = Some lb -> lround n < r -> r <= round n ->
      maj23 (hv_prevotes (votes n) r) = Some b -> hashes_to (Some lb) (b_hash b) = true) /\
   (forall r, round n < r -> any23 (hv_prevotes (votes n) r) = false).
@@ -127,18 +130,25 @@ Example c12_no_stale_lock_nonvacuous :
               (match lblock n with Some _ => true | None => false end) &&
               (match maj23 (hv_prevotes (votes n) 1) with None => true | Some _ => false end)
     | _ => false end
-  | _ => false end = true.
-Proof. vm_compute. reflexivity. Qed.
+  | _ => false end = true /\
+  match ux_n0 with Ok n0 => undecided_run (mkCfg false) ux_inputs n0 | _ => False end.
+Proof. split; [vm_compute; reflexivity|]. vm_compute. repeat split. Qed.
 
-(* (5) REFUTED (finding F-12a): "a node that has seen +2/3 precommits for a block finalises it once the
-   block arrives".  A node in the commit step that still waits for the block is pulled into a later
-   round by +2/3 of any prevotes of that round (enterNewRound has no guard for the commit step);
-   the round change drops the part set of the decided block, the parts that arrive afterwards are
-   ignored, and since every precommit of the deciding round is already counted nothing triggers the
-   commit again.  Witness (four validators): the node receives three precommits for block [7] in
-   round 0 (commit step, part set created), then three nil prevotes of round 1 that had been held
-   back, then the block: without the late prevotes it moves to height 2, with them it stays at
-   height 1 for good - the others have moved on and no longer vote at this height. *)
+(* (5) a decided block is finalised (finding F-12a, repaired): a node in the commit step that still
+   waits for the block used to be pulled into a later round by +2/3 of any prevotes of that round -
+   old messages delivered late were enough - and the round change dropped the part set of the
+   decided block for good.  Since the repair the three round-skip sites of addVote act only below
+   the commit step, and no input takes a node out of the commit step within the height (proposals,
+   parts, votes of any round, timeouts of rounds it has reached): `c12_decided_stays_decided`.  The witness of the defect, now as it should be (four validators: three
+   precommits for block [7] in round 0, three late nil prevotes of round 1, then the block): the
+   late prevotes leave the node where it is, and the block takes it to the next height either way. *)
+Theorem c12_decided_stays_decided :
+  forall c i n n' o, c_skip_commit c = false -> 8 <= step n ->
+  (forall h r s, i = ITimeout h r s -> r <= round n) ->
+  handle c i n = Ok (n', o) -> height n' = height n -> 8 <= step n'.
+Proof. exact decided_stays. Qed.
+Print Assumptions c12_decided_stays_decided.
+
 Definition rx_vote (i : Z) (who : N) (t : N) (r : Z) (b : block_id) : vote :=
   mkVote (ux_a who) i 1 r t b [who; Z.to_N r; t] true.
 Definition rx_decided : list input :=
@@ -152,16 +162,12 @@ Definition rx_summary (r : res node) : option (Z * Z * Z * bool * bool) :=
   | Ok n => Some (height n, round n, step n, match pparts n with Some _ => true | None => false end,
                   match maj23 (hv_precommits (votes n) 0) with Some _ => true | None => false end)
   | _ => None end.
-Theorem c12_decided_block_is_finalised_refuted :
+Example c12_decided_block_is_finalised :
   exists n0, ux_n0 = Ok n0 /\
-  (* decided, waiting for the block: commit step, part set, +2/3 precommits *)
   rx_summary (run (mkCfg false) rx_decided n0) = Some (1, 0, 8, true, true) /\
-  (* the block arrives: next height *)
   rx_summary (run (mkCfg false) (rx_decided ++ rx_block) n0) = Some (2, 0, 1, false, false) /\
-  (* late prevotes of round 1 first: out of the commit step, part set gone, and the block no longer helps *)
-  rx_summary (run (mkCfg false) (rx_decided ++ rx_late_prevotes) n0) = Some (1, 1, 6, false, true) /\
-  rx_summary (run (mkCfg false) (rx_decided ++ rx_late_prevotes ++ rx_block) n0) = Some (1, 1, 6, false, true).
+  rx_summary (run (mkCfg false) (rx_decided ++ rx_late_prevotes) n0) = Some (1, 0, 8, true, true) /\
+  rx_summary (run (mkCfg false) (rx_decided ++ rx_late_prevotes ++ rx_block) n0) = Some (2, 0, 1, false, false).
 Proof.
   eexists. split; [vm_compute; reflexivity|]. repeat split; vm_compute; reflexivity.
 Qed.
-Print Assumptions c12_decided_block_is_finalised_refuted.
